@@ -41,6 +41,7 @@ type CaseSpec struct {
 	Kind      string      `json:"kind,omitempty"`
 	ZoneRole  string      `json:"zone_role,omitempty"`
 	Role      string      `json:"role,omitempty"`
+	Variant   string      `json:"variant,omitempty"`
 	AllSrv    bool        `json:"all_servers,omitempty"`
 	CDFirst   bool        `json:"cd_first,omitempty"`
 	Query     *QuerySpec  `json:"query,omitempty"`
@@ -122,20 +123,23 @@ func main() {
 	}
 	type batch struct{ lo, hi int }
 	var batches []batch
+	// the directed worlds (directed.go) are part of every run; they go first so
+	// that the longest of them overlap with the generated batches (the worlds
+	// that enumerate variants, forgemix-*, get a child process each)
+	for k := 0; k < nDirected(); {
+		hi := k + 2
+		if hi > nDirected() || directedFamily(directedDefs[k].name) == "forgemix" {
+			hi = k + 1
+		}
+		batches = append(batches, batch{directedBase + k, directedBase + hi})
+		k = hi
+	}
 	for lo := 0; lo < nHier; lo += per {
 		hi := lo + per
 		if hi > nHier {
 			hi = nHier
 		}
 		batches = append(batches, batch{lo, hi})
-	}
-	// the directed worlds (directed.go) are part of every run
-	for k := 0; k < nDirected(); k += 2 {
-		hi := k + 2
-		if hi > nDirected() {
-			hi = nDirected()
-		}
-		batches = append(batches, batch{directedBase + k, directedBase + hi})
 	}
 	sem := make(chan struct{}, workers)
 	var wg sync.WaitGroup
@@ -236,6 +240,9 @@ func main() {
 	r.Require("parent_owned_denial_delivered/mixed_with_genuine_records", 10)
 	r.Require("parent_owned_denial_delivered/genuine_proof_replaced", 30)
 	r.Require("parent_owned_denial_shared_server_reply_servfail", 40)
+	// combined forgeries: decoy RRSIGs around a replayed / proof-less wildcard
+	// signature, forged CNAMEs vouched for by a DNAME (forgemix.go)
+	requireForgemix(r.Require)
 	r.Finish(rule)
 }
 
@@ -246,7 +253,7 @@ func sweep() {
 	authsim.SweepTemp()
 }
 
-const rule = "generated hierarchies plus the fixed directed worlds of directed.go (RRSIG-window-only forgeries per response role, mixed / unusable-only DS RRsets in every order, trust anchors lost and restored mid-history, signed zone below an insecure cut answered by an ancestor server on a cold resolver, alias chains with hops of differing security asked through the decoded and the wire-born entry in both orders and after a hop outage, parent-owned denial proofs on servers shared by parent and child); distinct_nontrivial = distinct (level signing pattern, tamper kind, zone:response-role) triples whose forged response was actually sent to the resolver by a scripted server during the case; evaluations = client-visible replies judged"
+const rule = "generated hierarchies plus the fixed directed worlds of directed.go (combined forgeries of one response enumerated by shape — junk RRSIGs with other Labels / key tag listed before, after or around a genuine wildcard signature replayed at an existing name or stripped of its next-closer denial; a forged CNAME next to a DNAME owned by the zone apex or an ancestor of the signer zone, in either section, unsigned / junk-signed / signed by the ancestor —; RRSIG-window-only forgeries per response role, mixed / unusable-only DS RRsets in every order, trust anchors lost and restored mid-history, signed zone below an insecure cut answered by an ancestor server on a cold resolver, alias chains with hops of differing security asked through the decoded and the wire-born entry in both orders and after a hop outage, parent-owned denial proofs on servers shared by parent and child); distinct_nontrivial = distinct (level signing pattern, tamper kind, zone:response-role) triples whose forged response was actually sent to the resolver by a scripted server during the case; evaluations = client-visible replies judged"
 
 func (run *runner) nextID() uint16 { run.id++; return run.id }
 
@@ -586,6 +593,10 @@ type plan struct {
 	allServers bool
 	cdFirst    bool
 	q          QuerySpec
+	// variant of a kind with several shapes; fixedVariant = chosen by the plan
+	// (directed worlds) rather than drawn from the case's stream
+	variant      int
+	fixedVariant bool
 }
 
 // candidates lists the (question, position) pairs of a world at which kind
@@ -602,7 +613,7 @@ func candidates(w *world, kind *tamperKind, qs []QuerySpec, controlOK map[string
 			if zoneRole == "root" || w.zones[zoneRole] == nil {
 				continue
 			}
-			c := &caseCtx{w: w, zoneRole: zoneRole, z: w.zones[zoneRole], parent: w.zones[parentRole(zoneRole)], other: w.zones["other"], qname: q.Name}
+			c := &caseCtx{w: w, zoneRole: zoneRole, z: w.zones[zoneRole], parent: w.zones[parentRole(zoneRole)], other: w.zones["other"], qname: q.Name, qtype: q.Type}
 			if c.other == c.z {
 				c.other = nil
 			}
@@ -619,6 +630,9 @@ func candidates(w *world, kind *tamperKind, qs []QuerySpec, controlOK map[string
 					}
 					if strings.HasPrefix(kind.Name, "forge-") {
 						okRole = shape == "pos" || shape == "mx" || shape == "realwild"
+					}
+					if kind.AnswerShapes != nil {
+						okRole = kind.AnswerShapes[shape]
 					}
 				case roleNegative:
 					okRole = negativeKinds[shape]
@@ -690,12 +704,22 @@ func (run *runner) execute(w *world, hier, ci int, p plan, rng *rand.Rand) {
 	var ctx *caseCtx
 	multi := kind.Name == "downgrade" || kind.Name == "dnskey-add-evil" || kind.ZoneTogether
 	z := w.zones[cd.zoneRole]
-	ctx = &caseCtx{w: w, zoneRole: cd.zoneRole, z: z, parent: w.zones[parentRole(cd.zoneRole)], other: w.zones["other"], qname: cd.q.Name}
+	ctx = &caseCtx{w: w, zoneRole: cd.zoneRole, z: z, parent: w.zones[parentRole(cd.zoneRole)], other: w.zones["other"], qname: cd.q.Name, qtype: cd.q.Type}
 	if ctx.other == ctx.z {
 		ctx.other = nil
 	}
 	ctx.attacker = zm.New(zm.Spec{Apex: z.Apex(), Signed: true, Algorithm: z.Spec().Algorithm})
 	cs := CaseSpec{Hier: hier, Case: ci, Kind: kind.Name, ZoneRole: cd.zoneRole, Role: cd.role, AllSrv: allServers, CDFirst: cdFirst, Query: &q}
+	if kind.NVariants > 0 {
+		// a stream of its own: the draws of the other phases stay what they were
+		ctx.variant = p.variant
+		if !p.fixedVariant {
+			ctx.variant = r.RandN(fmt.Sprintf("variant-%d", hier), ci).IntN(kind.NVariants)
+		}
+		if kind.VariantName != nil {
+			cs.Variant = kind.VariantName(ctx.variant)
+		}
+	}
 	label := kind.Name + "@" + cd.zoneRole + ":" + cd.role
 	if multi {
 		label = kind.Name + "@" + cd.zoneRole + ":multi"
@@ -888,6 +912,27 @@ func (run *runner) execute(w *world, hier, ci int, p plan, rng *rand.Rand) {
 			}
 		}
 		r.Distinct(w.spec.Pattern() + "|" + kind.Name + "|" + cd.zoneRole + ":" + cs.Role)
+		if isForgemixKind(kind.Name) {
+			// combined forgeries (forgemix.go): which shapes were delivered, what
+			// the forged responses contained, and what the client got
+			run.countVariant(kind, ctx.variant)
+			for _, n := range ctx.takeNotes() {
+				r.Count("forgemix/"+n, 1)
+			}
+			switch {
+			case j.Class == clsServfail && kind.Breaks:
+				r.Count("forgemix_reply_servfail/"+kind.Name, 1)
+			case !kind.Breaks && (j.Class == clsServfail || j.Class == clsTruth):
+				r.Count("forgemix_reply_truth_or_servfail/"+kind.Name, 1)
+			}
+			if w.spec.Directed != "" && ci%37 == 0 {
+				r.Sample(map[string]any{"directed": w.spec.Directed, "kind": kind.Name, "variant": cs.Variant, "position": cd.zoneRole + ":" + cs.Role,
+					"query": q.String(), "forged_response_contained": ctx.takeNotes(), "class": j.Class, "ad": reply != nil && reply.AuthenticatedData, "forged_responses": applied})
+			}
+			if cs.Variant != "" {
+				r.Distinct(w.spec.Pattern() + "|" + kind.Name + "[" + cs.Variant + "]|" + cd.zoneRole + ":" + cs.Role)
+			}
+		}
 		r.DistinctIn("kind_position", kind.Name+"|"+cd.zoneRole+":"+cs.Role)
 		switch j.Class {
 		case clsServfail:
